@@ -53,7 +53,9 @@ CONFIG = {
                 "`supported` exists twice, Lean and Go). For a supported file the Go line is computed from the real code: tree=1 iff the "
                 "text IS the plain print of the decoded SEXP, walk= the real walk of the text (ok:DUMP), msg= that dump, same=1; the Lean "
                 "line: tree=1 iff the model's parse of the text, positions erased, equals toBcl(ast); walk= the model's walk of "
-                "toBcl(ast); msg= dump of toMsg(ast); same=1 iff the walked tree EQUALS toMsg(ast) (touched flags included). Oracle "
+                "toBcl(ast); msg= dump of toMsg(ast); same=1 iff the walked tree EQUALS toMsg(ast) (touched flags included). Fifth field "
+                "text= (Go: the shipped text is the printer's text; Lean: the bytes of printJ5s(ast) are the shipped text): the model's "
+                "`printJ5s ast` must equal the Go printer's text byte for byte. Oracle "
                 "print-rejected: the real parser does not accept a supported printed file (plus all walker.parse oracles). Non-trivial = "
                 "supported; distinct by op text. Observed: ~87 % supported, 100 % of the unbroken j5sgen files supported.",
     }],
